@@ -2,8 +2,7 @@
 from . import common as C
 
 PARTIAL = ("PARTIAL: the round-trip theorems reach every rule of the response grammar through Spec.enc_response; spellings outside the Spec relations "
-           "(more than one trailing body-extension, a quoted transfer encoding that merely starts with a known "
-           "name, METADATA entry names containing SP/CR) are decided by the implementation-side oracle and the model/implementation correspondence only")
+           "(more than one trailing body-extension, METADATA entry names containing SP/CR) are decided by the implementation-side oracle and the model/implementation correspondence only")
 
 
 def generic_run(prop, propfile, tier, seed, t0, search, rule, what, corr_streams, assumptions, extra_evidence=None):
